@@ -1326,10 +1326,38 @@ private:
           str += '\t';
           break;
         case 'u':
-          // Unicode escape - simplified implementation
-          _pos += 4;  // Skip the 4 hex digits for now
-          str += '?'; // Placeholder
+        {
+          // \uXXXX: decode to UTF-8. A high surrogate followed by an escaped low
+          // surrogate is combined into one code point; an unpaired surrogate
+          // becomes U+FFFD so that the result is always valid UTF-8.
+          std::uint32_t cp = 0;
+          if (!_parseHex4(_pos + 1, cp))
+          {
+            _error = "Invalid unicode escape";
+            return false;
+          }
+          _pos += 4; // now at the last hex digit
+          if (cp >= 0xD800 && cp <= 0xDBFF)
+          {
+            std::uint32_t low = 0;
+            if (_pos + 2 < _text.size() && _text[_pos + 1] == '\\' && _text[_pos + 2] == 'u' &&
+                _parseHex4(_pos + 3, low) && low >= 0xDC00 && low <= 0xDFFF)
+            {
+              cp = 0x10000 + ((cp - 0xD800) << 10) + (low - 0xDC00);
+              _pos += 6; // now at the last hex digit of the low surrogate
+            }
+            else
+            {
+              cp = 0xFFFD;
+            }
+          }
+          else if (cp >= 0xDC00 && cp <= 0xDFFF)
+          {
+            cp = 0xFFFD;
+          }
+          _appendUtf8(str, cp);
           break;
+        }
         default:
           _error = "Invalid escape sequence";
           return false;
@@ -1351,6 +1379,59 @@ private:
     ++_pos; // Skip closing quote
     out = Json(std::move(str));
     return true;
+  }
+
+  /// \brief Read exactly four hex digits starting at \p at; false if the
+  /// input ends early or a character is not a hex digit.
+  bool _parseHex4(std::size_t at, std::uint32_t &out) const
+  {
+    if (at > _text.size() || _text.size() - at < 4)
+    {
+      return false;
+    }
+    std::uint32_t v = 0;
+    for (std::size_t i = 0; i < 4; ++i)
+    {
+      const char c = _text[at + i];
+      std::uint32_t digit;
+      if (c >= '0' && c <= '9')
+        digit = static_cast<std::uint32_t>(c - '0');
+      else if (c >= 'a' && c <= 'f')
+        digit = static_cast<std::uint32_t>(c - 'a' + 10);
+      else if (c >= 'A' && c <= 'F')
+        digit = static_cast<std::uint32_t>(c - 'A' + 10);
+      else
+        return false;
+      v = (v << 4) | digit;
+    }
+    out = v;
+    return true;
+  }
+
+  static void _appendUtf8(std::string &str, std::uint32_t cp)
+  {
+    if (cp < 0x80)
+    {
+      str += static_cast<char>(cp);
+    }
+    else if (cp < 0x800)
+    {
+      str += static_cast<char>(0xC0 | (cp >> 6));
+      str += static_cast<char>(0x80 | (cp & 0x3F));
+    }
+    else if (cp < 0x10000)
+    {
+      str += static_cast<char>(0xE0 | (cp >> 12));
+      str += static_cast<char>(0x80 | ((cp >> 6) & 0x3F));
+      str += static_cast<char>(0x80 | (cp & 0x3F));
+    }
+    else
+    {
+      str += static_cast<char>(0xF0 | (cp >> 18));
+      str += static_cast<char>(0x80 | ((cp >> 12) & 0x3F));
+      str += static_cast<char>(0x80 | ((cp >> 6) & 0x3F));
+      str += static_cast<char>(0x80 | (cp & 0x3F));
+    }
   }
 
   bool _parseArray(Json &out, std::size_t depth)
